@@ -228,9 +228,14 @@ def _progs_from_json(out: dict[str, Any]) -> tuple[dict, dict]:
 def tlc_case(arg: tuple[dict[str, Any], str]) -> dict[str, Any]:
     out, mode = arg
     pr, gr = _progs_from_json(out)
-    por: Any = {'full': False, 'por': True, 'lin': 'lin'}[mode]
+    por: Any = {'full': False, 'por': True, 'lin': 'lin', 'live': False}[mode]
+    # 'live': the full next-state relation under weak fairness, with the
+    # temporal property Termination (every rank reaches the end of its
+    # program and every collective completes) -- "no rank ever stalls" as a
+    # liveness property, not only as absence of deadlock
     r = progs.check_programs(pr, gr, por=por, workers=2, timeout=900,
-                             name='MC_Comm_' + chash(out['case']))
+                             liveness=(mode == 'live'),
+                             name='MC_Comm_' + chash([out['case'], mode]))
     return {'mode': mode, 'ok': r.ok, 'violated': r.violated,
             'generated': r.generated, 'distinct': r.distinct,
             'wall': r.wall_s, 'error': r.error_text[:1500],
@@ -293,6 +298,7 @@ def main(tier: str, seed: int) -> int:
         jobs.append((o, 'full'))
         jobs.append((o, 'por'))
         jobs.append((o, 'lin'))
+        jobs.append((o, 'live'))
     for o in mid[-n_por:]:
         jobs.append((o, 'por'))
     step = max(1, len(ulist) // n_lin)
